@@ -479,6 +479,50 @@ func statuslessCase(c *core.Ctx, r *core.Rand, i int) {
 	}
 }
 
+// serverRequestCase: instead of (or ahead of) the response, the server sends a message of the other kind: a Request
+// Message (a server-to-client Notify/Put, or a confused peer). The call returns a payload of its own operation or an
+// error; it never panics.
+func serverRequestCase(c *core.Ctx, r *core.Rand, i int) {
+	bs := builders()
+	b := bs[i%len(bs)]
+	variant := i / len(bs) // 0: a request message, then the real response; 1: a request message only, then the connection ends; 2: a request message while idle, before the call
+	push := ttlv.MarshalTTLV(&kmip.RequestMessage{Header: kmip.RequestHeader{ProtocolVersion: kmip.V1_4, BatchCount: 1},
+		BatchItem: []kmip.RequestBatchItem{{Operation: kmip.OperationNotify, RequestPayload: kmip.NewUnknownPayload(kmip.OperationNotify, ttlv.Value{Tag: kmip.TagUniqueIdentifier, Value: "pushed"})}}})
+	srv := script.NewServer(func(rx script.Received, conn *memnet.Conn) *kmip.ResponseMessage {
+		if variant != 2 {
+			conn.Write(push)
+		}
+		if variant == 1 {
+			conn.Close()
+			return nil
+		}
+		return respond(r, shape{headerCount: 1, items: 1, opKind: 0, status: kmip.ResultStatusSuccess, payload: 1}, b.op, rx.Msg)
+	})
+	defer srv.Close()
+	if variant == 2 {
+		srv.OnConn = func(_ int, conn *memnet.Conn) { conn.Write(push) }
+	}
+	cl, err := newClient(srv)
+	if err != nil {
+		panic(err)
+	}
+	defer cl.Close()
+	var pl kmip.OperationPayload
+	var cerr error
+	c.Distinct(core.Hash64("server-request", b.name, fmt.Sprint(variant)))
+	if p, pv, st := core.Guard(func() { pl, cerr = b.call(cl) }); p {
+		c.Violation(core.PanicSig(pv, st), fmt.Sprintf("client call panicked when the server sent a Request Message (variant %d): %v (%s)", variant, pv, b.name), map[string]any{"stack": st})
+		return
+	}
+	c.Count("server_request_exchanges", 1)
+	if cerr == nil {
+		want := gen.OpByCode(b.op)
+		if pl == nil || pl.Operation() != b.op || reflect.TypeOf(pl) != reflect.PointerTo(want.Resp) {
+			c.Violation("C12:foreign-payload-as-success:server-request", fmt.Sprintf("%s returns %T as success when the server sent a Request Message (variant %d)", b.name, pl, variant), nil)
+		}
+	}
+}
+
 func negotiationCase(c *core.Ctx, r *core.Rand, i int) {
 	s, ok := shapeOf(i)
 	if !ok {
@@ -567,8 +611,8 @@ func Spec() *core.Spec {
 		Level: "exploration",
 		Rule: "for each of the 26 fluent request builders plus Client.Request, Client.Batch, the version-discovery exchange of Dial and Client.Signer: a scripted server answers from the complete product " +
 			"{header batch count 0,1,2} x {items 0,1,2} x {operation: requested, other registered, unknown, absent} x {status: Success, Failed, Pending, Undone, unknown} x {reason: none, registered, unknown} x {payload: absent, right, another operation's, opaque} (1443 shapes per entry point), " +
-			"plus seeded random well-formed responses with extensions and async values; plus every batch of 2, 3 and 4 requests answered item by item from {right, failed, pending, success with another operation's payload, success without payload, success answering another operation} (each item judged at its position); every (value, error) outcome is inspected under a panic monitor. Unwrap() must surface any failed item; response items without Result Status; reason Operation Not Supported under every status (discovery fallback only for a FAILED item); the server's message contains percent signs; distinct = distinct (entry point, response shape)",
-		Required: []string{"exchanges", "calls_succeeded", "calls_failed", "failed_item_errors_inspected", "negotiations", "signer_calls", "batch_exchanges", "batch_items_inspected", "batch_unwraps_with_failed_item", "statusless_exchanges"},
+			"plus seeded random well-formed responses with extensions and async values; plus every batch of 2, 3 and 4 requests answered item by item from {right, failed, pending, success with another operation's payload, success without payload, success answering another operation} (each item judged at its position); every (value, error) outcome is inspected under a panic monitor. Unwrap() must surface any failed item; response items without Result Status; Request Messages sent by the server instead of / ahead of the response; reason Operation Not Supported under every status (discovery fallback only for a FAILED item); the server's message contains percent signs; distinct = distinct (entry point, response shape)",
+		Required: []string{"exchanges", "calls_succeeded", "calls_failed", "failed_item_errors_inspected", "negotiations", "signer_calls", "batch_exchanges", "batch_items_inspected", "batch_unwraps_with_failed_item", "statusless_exchanges", "server_request_exchanges"},
 		Families: []core.Family{
 			{Name: "shapes", Exhaustive: true, N: func(string) int { return len(bs) * nShapes }, Run: func(c *core.Ctx, r *core.Rand, i int) {
 				b := bs[i%len(bs)]
@@ -603,6 +647,7 @@ func Spec() *core.Spec {
 				}
 				batchCase(c, r, i)
 			}},
+			{Name: "server-request", Exhaustive: true, N: func(string) int { return 3 * len(bs) }, Run: serverRequestCase},
 			{Name: "statusless", Exhaustive: true, N: func(string) int { return 3 * len(bs) }, Run: statuslessCase},
 			{Name: "negotiation", Exhaustive: true, N: func(string) int { return nShapes }, Run: negotiationCase},
 			{Name: "signer", N: func(string) int { return nShapes }, Run: signerCase},
